@@ -63,62 +63,64 @@ func eqAtom(l, r *Term, pol bool, op string) Atom {
 
 var zeroInt = &Term{Op: "const", S: "0"}
 
-// condAtom computes the normal form of a boolean SSA value.
+// condAtom computes the normal form of a boolean SSA value (through its term, so that
+// conditions computed by inlined helper functions normalise like inline code).
 func condAtom(x *TX, v ssa.Value, at ssa.Instruction) Atom {
-	switch v := v.(type) {
-	case *ssa.UnOp:
-		if v.Op == token.NOT {
-			a := condAtom(x, v.X, v)
+	return atomOfTerm(x.Of(v, at))
+}
+
+func atomOfTerm(t *Term) Atom {
+	switch t.Op {
+	case "un":
+		if t.S == "!" {
+			a := atomOfTerm(t.A[0])
 			a.Pol = !a.Pol
 			return a
 		}
-	case *ssa.BinOp:
-		l, r := x.Of(v.X, v), x.Of(v.Y, v)
-		switch v.Op {
-		case token.EQL:
+	case "bin":
+		l, r := t.A[0], t.A[1]
+		switch t.S {
+		case "==":
 			return eqAtom(l, r, true, "==")
-		case token.NEQ:
+		case "!=":
 			return eqAtom(l, r, false, "==")
-		case token.LSS:
+		case "<":
 			return ltAtom(l, r, true, "<")
-		case token.GTR:
+		case ">":
 			return ltAtom(r, l, true, "<")
-		case token.LEQ:
+		case "<=":
 			return ltAtom(r, l, false, "<")
-		case token.GEQ:
+		case ">=":
 			return ltAtom(l, r, false, "<")
 		}
-	case *ssa.Call:
-		if callee := v.Call.StaticCallee(); callee != nil && !v.Call.IsInvoke() {
-			name := funcName(callee)
-			if strings.HasPrefix(name, "(sdkmath.Int).") && len(v.Call.Args) >= 1 {
-				a := x.Of(v.Call.Args[0], v)
-				var b *Term
-				if len(v.Call.Args) >= 2 {
-					b = x.Of(v.Call.Args[1], v)
-				}
-				switch callee.Name() {
-				case "GT":
-					return ltAtom(b, a, true, "<I")
-				case "GTE":
-					return ltAtom(a, b, false, "<I")
-				case "LT":
-					return ltAtom(a, b, true, "<I")
-				case "LTE":
-					return ltAtom(b, a, false, "<I")
-				case "Equal":
-					return eqAtom(a, b, true, "==I")
-				case "IsPositive":
-					return Atom{Key: fmt.Sprintf("(0 <I %s)", a), Pol: true}
-				case "IsNegative":
-					return Atom{Key: fmt.Sprintf("(%s <I 0)", a), Pol: true}
-				case "IsZero":
-					return eqAtom(a, zeroInt, true, "==I")
-				}
+	case "call":
+		if strings.HasPrefix(t.S, "(sdkmath.Int).") && len(t.A) >= 1 {
+			a := t.A[0]
+			var b *Term
+			if len(t.A) >= 2 {
+				b = t.A[1]
+			}
+			switch strings.TrimPrefix(t.S, "(sdkmath.Int).") {
+			case "GT":
+				return ltAtom(b, a, true, "<I")
+			case "GTE":
+				return ltAtom(a, b, false, "<I")
+			case "LT":
+				return ltAtom(a, b, true, "<I")
+			case "LTE":
+				return ltAtom(b, a, false, "<I")
+			case "Equal":
+				return eqAtom(a, b, true, "==I")
+			case "IsPositive":
+				return Atom{Key: fmt.Sprintf("(0 <I %s)", a), Pol: true}
+			case "IsNegative":
+				return Atom{Key: fmt.Sprintf("(%s <I 0)", a), Pol: true}
+			case "IsZero":
+				return eqAtom(a, zeroInt, true, "==I")
 			}
 		}
 	}
-	return Atom{Key: x.Of(v, at).String(), Pol: true}
+	return Atom{Key: t.String(), Pol: true}
 }
 
 // ---------------------------------------------------------------------------
